@@ -33,4 +33,10 @@ PROPS = {
             "totality theorems are about the Gallina model (Panic = the Rust code unwinds); the aux-buffer inputs are covered under C10",
         ],
     },
+    "C06": {
+        "families": [{"name": "c06"}],
+        "assumptions": [
+            "totality theorem is about the model's parsers and verifier (checked cursor reads); the correspondence compares outcome classes (accept / reject / panic) of hbs_lms::verify, VerifyingKey::verify (Signature, VerifierSignature) and the byte-level constructors on every prefix length, field sweeps and random bytes",
+        ],
+    },
 }
